@@ -10,6 +10,7 @@ import (
 	"verif/harness/refstore"
 
 	"github.com/freeconf/yang/node"
+	"github.com/freeconf/yang/parser"
 )
 
 func init() { Registry["C12"] = C12 }
@@ -126,17 +127,40 @@ func C12(c *core.Ctx) {
 	var pends []pend
 	for si := 0; si < nScen; si++ {
 		r := rng.Fork()
-		dc, err := newDataCase(r, o)
+		var dc *dataCase
+		var err error
+		withChoice := r.Chance(30)
+		if withChoice {
+			gen.ResetNames()
+			kids := gen.GenChoiceSchema(r, 0, 2+r.Intn(3))
+			y := gen.Module("m", kids)
+			m, lerr := parser.LoadModuleFromString(nil, y)
+			if lerr != nil {
+				c.Violation(core.Replay{Kind: "harness", Summary: lerr.Error(), NoInputFound: true})
+				return
+			}
+			dc = &dataCase{kids, y, m}
+		} else {
+			dc, err = newDataCase(r, o)
+		}
 		if err != nil {
 			c.Violation(core.Replay{Kind: "harness", Summary: err.Error(), NoInputFound: true})
 			return
 		}
 		tgt0 := gen.GenBody(r, dc.kids, 40+r.Intn(50), o)
+		if withChoice {
+			tgt0 = gen.GenChoiceBody(r, dc.kids, 40+r.Intn(40))
+		}
 		locs := []editLoc{{"", dc.kids, tgt0, "root", 0}}
 		findLocs(dc.kids, tgt0, "", 0, &locs)
 		loc := core.Pick(r, locs)
 		op := core.Pick(r, []string{"upsert", "upsert", "insert", "update", "delete", "replace"})
 		src0 := gen.GenBody(r, loc.kids, 30+r.Intn(50), o)
+		if withChoice {
+			loc = locs[0]
+			op = "upsert"
+			src0 = gen.GenChoiceBody(r, dc.kids, 40+r.Intn(40))
+		}
 		gen.Overlap(r, loc.kids, src0, loc.body)
 		if loc.kind == "entry" {
 			keepEntryKeys(dc.kids, loc, src0)
@@ -234,6 +258,9 @@ func C12(c *core.Ctx) {
 		for _, s := range scns {
 			top.steps = append(top.steps, c12step{sub: s})
 		}
+		if withChoice {
+			c.Count("scenario", "choice-upsert")
+		}
 		c.Count("scenario", op+"-"+loc.kind)
 		c.Count("callbacks", fmt.Sprint((K/20)*20, "+"))
 		input := map[string]interface{}{"yang": dc.yang, "op": op, "entry": loc.path, "source": gen.Canon(loc.kids, src0, false), "target": gen.Canon(dc.kids, tgt0, false), "faultfree_trace": decodeEvents(c12events(free))}
@@ -263,6 +290,9 @@ func C12(c *core.Ctx) {
 			inp["fail_at"] = k
 			inp["faulted_trace"] = decodeEvents(c12events(rec))
 			inp["returned_error"] = fmt.Sprint(err)
+			if k-1 < len(rec.Events) {
+				inp["failing_event"] = rec.Events[k-1].String()
+			}
 			pends = append(pends, pend{fmt.Sprintf("%s at %q (%d ancestors) failing callback %d/%d", op, loc.path, loc.depth, k, K), status + " " + c12events(rec) + " | " + surf, inp, k})
 		}
 	}
@@ -287,6 +317,9 @@ func C12(c *core.Ctx) {
 			c.Sample(map[string]interface{}{"case": p.desc, "impl": short(decodeEvents(strings.SplitN(p.impl, " | ", 2)[0][2:])), "model": short(decodeEvents(modelTrace))})
 		}
 		if p.impl != want {
+			if strings.Contains(fmt.Sprint(p.input["failing_event"]), "choose tgt:") && c.IsKnown("target-choose-error-swallowed", p.desc) {
+				continue
+			}
 			implParts := strings.SplitN(p.impl, " | ", 2)
 			class := "trace"
 			if implParts[1] != "ok" {
